@@ -273,7 +273,7 @@ def r5(prog, rep):
     # psi limits come from psi_* options with psinorm_* as default
     mod = prog.module(tables.TOK)
     f = mod.funcs.get("TokamakEquilibrium.makeRegions")
-    src = "".join(mod.text(f.node).split())
+    src = mod.code(f.node)
     n = 0
     for nm in ("core", "sol", "sol_inner", "pf_lower", "pf_upper"):
         w = "self.psi_%s=with_default(self.user_options.psi_%s,self._psinorm_to_psi(self.user_options.psinorm_%s),)" % (nm, nm, nm)
@@ -283,7 +283,7 @@ def r5(prog, rep):
     ctx = Context()
     ex = Extractor(ctx, mod)
     ex.on_attr = lambda d, node, env: ctx.sym(d)
-    ex.on_subscript = lambda node, value, env: ctx.sym("".join(mod.text(node).split()))
+    ex.on_subscript = lambda node, value, env: ctx.sym(mod.code(node))
     ret = [r for r in walk_own(g2.node) if isinstance(r, ast.Return) and r.value is not None and not isinstance(r.value, ast.Constant)]
     v = ex.expr(ret[-1].value, {"psinorm": ctx.sym("psinorm")})
     ok = (v.subs({"psinorm": 0}) - ctx.sym("self.psi_axis")).is_zero() and (v.subs({"psinorm": 1}) - ctx.sym("self.psi_sep[0]")).is_zero() and v.diff("psinorm").diff("psinorm").is_zero()
